@@ -1957,6 +1957,13 @@ def const_program(r):
             main.append({'k': 'const', 'name': nm, 'e': e})
             main.append({'k': 'print', 'items': [[['var', nm], ';'],
                                                  [['bin', '+', ['var', nm], ['lit', '%', 1]], '']]})
+            if r.random() < 0.4:
+                # a CONST defined in terms of another one (whose value may be
+                # one the compiler cannot compute)
+                n2 = fresh('kc')
+                main.append({'k': 'const', 'name': n2,
+                             'e': ['bin', r.choice(('+', '*', '-')), ['var', nm], const_expr(r, 0)]})
+                main.append({'k': 'print', 'items': [[['lit', '$', f'<{len(main)}>'], ';'], [['var', n2], '']]})
         elif form == 'let':
             ty = r.choice('%&!#')
             nm = fresh('v', ty)
